@@ -31,6 +31,16 @@ TNext == /\ l <= Len(Trace)
                                \cup (IF valid /\ E.err = "" /\ <<E.got_min, E.got_max, E.got_preview>> # <<E.min, E.max, E.preview>>
                                      THEN {"C03:recording-lengths-misread"} ELSE {})
                       IN IF v = {} THEN TRUE ELSE PrintT(<<"VIOL", l, v>>)
+              ELSE IF E.ev = "longfiles"
+              THEN \* C03 / C17 for recording lengths beyond 16 bits (max-secs*fps > 65535), counting sinks behind the real processor:
+                   \* every finished continuous file holds max-secs*fps + 1 frames; under uninterrupted motion every motion
+                   \* recording is cut at max-secs*fps frames, never later and (min-secs >= 1: every motion frame extends it) never earlier
+                   /\ UNCHANGED mon
+                   /\ LET MaxF == E.max * E.fps
+                          v == (IF \E i \in DOMAIN E.clens : E.clens[i] # MaxF + 1 THEN {"C17:continuous-file-length"} ELSE {})
+                               \cup (IF E.motion /\ \E i \in DOMAIN E.mlens : E.mlens[i] > MaxF THEN {"C03:exceeds-max"} ELSE {})
+                               \cup (IF E.motion /\ E.min >= 1 /\ \E i \in DOMAIN E.mlens : E.mlens[i] < MaxF THEN {"C03:cut-before-max-under-motion"} ELSE {})
+                      IN IF v = {} THEN TRUE ELSE PrintT(<<"VIOL", l, v>>)
               ELSE IF E.ev = "diskcheck"
               THEN \* C04's disk gate at the storage layer: passes iff the space available to the daemon (measured before
                    \* and after the call, requests within that interval are not judged) is at least min-disk-space-mb
